@@ -1,7 +1,7 @@
 (* Theorems about the `asphalt run` model (C16). *)
 From Coq Require Import String Ascii.
 From Coq Require Import List Bool Arith Lia.
-From Asphalt Require Import Config.Val Config.MergeSpec Config.MergeProofs Config.CliModel.
+From Asphalt Require Import Config.Val Config.MergeSpec Config.MergeProofs Config.CliModel Gen.Gen_cli.
 Import ListNotations.
 Open Scope string_scope.
 Open Scope list_scope.
@@ -228,7 +228,8 @@ Theorem cli_launch_shape : forall files ovs flag env l,
     lookup "type" rc = Some (l_type l) /\ l_root_cfg l = remove "type" rc /\
     l_options l = remove "backend_options" (remove "backend" (remove "component" (merge (Some top) osvc))).
 Proof.
-  intros files ovs flag env l H. unfold cli in H. fold (files_config files) in H.
+  intros files ovs flag env l H. unfold cli, cli_later_file_wins, cli_service_overrides_top_level in H.
+  fold (files_config files) in H.
   destruct (fold_left apply_override ovs (Ok (files_config files))) as [config1|e] eqn:O; [|discriminate].
   destruct (match lookup "services" config1 with None => Ok [] | Some (TDict s) => Ok s | Some _ => Fail EServicesType end)
     as [services0|e] eqn:S; [|discriminate].
@@ -241,3 +242,12 @@ Proof.
   inversion H; subst; simpl.
   exists config1, config3, services, svc, osvc, rc. repeat split; auto.
 Qed.
+
+(* ---------- the shape of _cli.run the model was computed from (Gen/Gen_cli.v) ---------- *)
+Theorem cli_source_shape :
+  cli_steps_in_documented_order = true /\ cli_later_file_wins = true /\
+  cli_override_split_at_first_equals = true /\ cli_key_split_at_unescaped_dots = true /\
+  cli_missing_sections_created = true /\ cli_flag_beats_env = true /\
+  cli_selection_ladder_as_documented = true /\ cli_service_overrides_top_level = true /\
+  cli_default_backend_is_asyncio = true.
+Proof. repeat split. Qed.
